@@ -109,7 +109,7 @@ def gval(o):
 def jsonable(o):
     """For evidence / replay files."""
     if isinstance(o, (bool, int, str)) or o is None: return o
-    if isinstance(o, float): return o.hex()
+    if isinstance(o, float): return o
     if isinstance(o, (bytes, bytearray)): return {"hex": bytes(o).hex()}
     if isinstance(o, S): return {"str": [ord(c) for c in o.s]}
     if isinstance(o, Err): return {"err": ENAMES.get(o.kind, o.kind), "text": o.text}
